@@ -37,6 +37,7 @@ type Lemma struct {
 	Props      []string
 	Pattern    []SExpr
 	Uses       []string
+	Splits     []Clause
 	File       string
 	Order      int
 }
@@ -189,7 +190,7 @@ func (db *SpecDB) parseFile(fname, src string) error {
 					first, r = t[:i], strings.TrimSpace(t[i+1:])
 				}
 				switch first {
-				case "requires", "ensures", "induction", "attach", "props", "generalize", "pattern", "uses":
+				case "requires", "ensures", "induction", "attach", "props", "generalize", "pattern", "uses", "split":
 					cls = append(cls, rawClause{kw: first, text: r})
 				default:
 					if len(cls) == 0 {
@@ -211,6 +212,12 @@ func (db *SpecDB) parseFile(fname, src string) error {
 					} else {
 						lm.Ensures = append(lm.Ensures, cl)
 					}
+				case "split":
+					ex, err := parseSpec(rc.text)
+					if err != nil {
+						return fmt.Errorf("%s: %v", where, err)
+					}
+					lm.Splits = append(lm.Splits, Clause{Text: rc.text, E: ex, Line: where})
 				case "pattern":
 					ex, err := parseSpec(rc.text)
 					if err != nil {
